@@ -56,6 +56,8 @@ type Prop struct {
 	// RunCase re-executes one recorded case (the JSON the Run function passed to
 	// Ctx.Fail) without the explorer and returns its failures.
 	RunCase func(c *Ctx, raw json.RawMessage) []Failure
+	// GoTest, when set, renders a recorded case as a plain Go unit test (package signal_test).
+	GoTest func(raw json.RawMessage) string
 	// Worker, when set, serves `mc <ID> --worker <arg>`: the part of the check that runs in
 	// another binary (the -race build) as a sub-process and reports with EmitWorkerResult.
 	Worker func(c *Ctx, arg string) int
@@ -509,6 +511,14 @@ func (c *Ctx) ReplayFile(path string) int {
 		fmt.Printf("  failure key=%s :: %s\n", f.Key, f.Msg)
 		if f.Key == rep.Key {
 			hit = true
+		}
+	}
+	if c.Prop.GoTest != nil {
+		if src := c.Prop.GoTest(rep.Case); src != "" {
+			tp := strings.TrimSuffix(path, ".json") + "_test.go"
+			if os.WriteFile(tp, []byte(src), 0o644) == nil {
+				fmt.Printf("plain Go test for this case written to %s (copy it into the repository root and run: go test -run TestReplay .)\n", tp)
+			}
 		}
 	}
 	if hit {
